@@ -1,6 +1,6 @@
 """C16 — finite sources emit their data exactly `repeat` times, then EOF (structural part)."""
 from ..common import *
-from ..mir import peel, walk, show, same_expr, self_field_path
+from ..mir import peel, walk, show, same_expr, self_field_path, E
 from .. import effects
 
 REPEAT_ADT = "Repeat"
@@ -305,6 +305,125 @@ def _short_guard(body, bb):
     return "%s" % f[0]
 
 
+SEEK = "std::io::Seek::seek"
+REWIND = "std::io::Seek::rewind"
+
+
+def _seek_target(body, t):
+    """expression x of seek(SeekFrom::Start(x)); const 0 for rewind(); None for relative seeks"""
+    if (t["f"].get("q") or "") == REWIND or t["f"].get("name") == "rewind":
+        return E("const", v=0, ty="u64")
+    if len(t["args"]) < 2:
+        return None
+    e = peel(body.operand_expr(t["args"][1]), through_try=False)
+    if e.k == "agg" and e.adt == "std::io::SeekFrom" and e.variant == "Start" and e.args:
+        return e.args[0]
+    return None
+
+
+def _root_local_of(body, op):
+    """local a `&mut file` argument refers to"""
+    p = op.get("c") or op.get("m")
+    if p is None or p["p"]:
+        return None
+    l = p["l"]
+    for _ in range(6):
+        ds = body.defs().get(l, [])
+        if len(ds) == 1 and ds[0][2] == "rv" and ds[0][3]["k"] in ("ref", "rawptr") and not ds[0][3]["p"]["p"]:
+            return ds[0][3]["p"]["l"]
+        if len(ds) == 1 and ds[0][2] == "rv" and ds[0][3]["k"] == "use":
+            q = ds[0][3]["a"].get("c") or ds[0][3]["a"].get("m")
+            if q is None or q["p"]:
+                return l
+            l = q["l"]
+            continue
+        return l
+    return l
+
+
+def rule_r7(facts, col):
+    """restarting a repetition seeks to where the data starts - the position every constructor left the file at (sibling
+    agreement between the constructors' initial positioning and work()'s rewind, through the stored fields)"""
+    from ..mir import self_field_path
+    rb = repeat_blocks(facts)
+    for body in facts.impl_bodies(BLOCK_TRAIT, "work"):
+        adt = body.self_adt
+        if adt not in rb:
+            continue
+        wbody = body
+        seek_sites = []
+        helpers = [wbody]
+        for hb_bb, ht in wbody.calls():
+            for q in Body.callee_qs(ht):
+                for hb in facts.by_q.get(q, []):
+                    if hb.self_adt == adt and hb.kind != "closure" and hb is not wbody and hb not in helpers:
+                        helpers.append(hb)
+        for hb in helpers:
+            for sbb, stt in hb.calls():
+                if stt["f"].get("name") in ("seek", "rewind") and "Seek" in (stt["f"].get("q") or ""):
+                    seek_sites.append((hb, sbb, stt))
+        for body, bb, t in seek_sites:
+            ffp = self_field_path(body.operand_expr(t["args"][0]))
+            tw = _seek_target(body, t)
+            if not ffp or tw is None:
+                continue
+            ffield = ffp[0]
+            key = "%s:rewind(self.%s)" % (wbody.q, ffield)
+            a = facts.adts.get(adt)
+            fields = [f["name"] for f in a["variants"][0]["fields"]]
+            probs = []
+            ncons = 0
+            for cb in facts.bodies:
+                if cb.self_adt != adt or cb.kind == "closure" or cb in helpers:
+                    continue
+                for b2 in sorted(cb.reachable(0)):
+                    for st in cb.blocks[b2]["stmts"]:
+                        if st["k"] != "assign" or st["rv"]["k"] != "agg" or st["rv"].get("adt") != adt:
+                            continue
+                        ops = dict(zip(st["rv"].get("fields") or fields, st["rv"]["ops"]))
+                        if ffield not in ops:
+                            continue
+                        ncons += 1
+                        fl = _root_local_of(cb, ops[ffield])
+                        # last absolute seek on that file local that dominates the aggregate
+                        init = None
+                        for sb, stt in cb.calls():
+                            if stt["f"].get("name") in ("seek", "rewind") and "Seek" in (stt["f"].get("q") or "") and cb.dominates(sb, b2) \
+                                    and _root_local_of(cb, stt["args"][0]) == fl:
+                                if init is None or cb.dominates(init[0], sb):
+                                    init = (sb, stt)
+                        pc = _seek_target(cb, init[1]) if init else E("const", v=0, ty="u64")
+                        if pc is None:
+                            continue     # relative seek: not judged
+                        # value of work()'s target under this constructor's stored fields
+                        twp = peel(tw, through_try=False)
+                        fp = self_field_path(twp)
+                        if twp.k == "const":
+                            val = twp
+                        elif fp and fp[0] in ops:
+                            val = cb.operand_expr(ops[fp[0]])
+                            for comp in fp[1:]:
+                                pv = peel(val, through_try=False)
+                                if pv.k == "agg" and pv.args and comp.isdigit() and int(comp) < len(pv.args):
+                                    val = pv.args[int(comp)]
+                                else:
+                                    val = E("field", a=pv, name=comp, idx=int(comp) if comp.isdigit() else None)
+                        else:
+                            continue
+                        pv, pp = peel(val, through_try=False), peel(pc, through_try=False)
+                        same = (pv.k == "const" and pp.k == "const" and pv.v == pp.v) or same_expr(pv, pp) or show(pv) == show(pp)
+                        if not same:
+                            probs.append("%s leaves the file at %s but work() rewinds to %s (= %s there)" % (
+                                cb.name, show(pp)[:40], show(twp)[:40], show(pv)[:40]))
+            if probs:
+                col.bad("C16.R7", key, body.where(bb),
+                        "the position a new repetition starts reading from differs from where a constructor positioned the data: %s - "
+                        "every repetition after the first emits the bytes in front of the data (container headers, metadata) instead "
+                        "of the samples" % "; ".join(sorted(set(probs))), {})
+            elif ncons:
+                col.ok("C16.R7", key, body.where(bb), "rewind target agrees with the initial positioning in %d constructor(s)" % ncons)
+
+
 def run(ctx):
     facts = ctx.facts("default")
     ctx.anchor("C16", REPEAT_ADT in facts.adts, "struct Repeat")
@@ -315,6 +434,8 @@ def run(ctx):
     rule_r4(facts, ctx)
     rule_r5(facts, ctx)
     rule_r6(facts, ctx)
+    rule_r7(facts, ctx)
+    ctx.floor("C16.R7", 2, "rewinds of FileSource and SigMFSource")
     ctx.floor("C16.R6", 2, "again() in FileSource::work (read()==0) and SigMFSource::work (left == 0)")
     ctx.floor("C16.R5", 2, "FileSource and SigMFSource read(2) staging buffers (TcpSource counted when present)")
     from .. import controls
